@@ -34,6 +34,9 @@ type profile struct {
 	faultPct   int
 	faultKinds []string
 	faultOps   []string // if set, only these op kinds are faulted
+	// jsonMangle > 0: in JSON mode that share of the form requests carries a body that does not
+	// decode (only for monitors without must-accept rules: the request is then refused)
+	jsonMangle int
 }
 
 var goodPWs = []string{"Passw0rd!A", "Passw0rd!B", "Passw0rd!C", "Passw0rd!D", "Zq9#mmmmX", "N3w-Secret_pw"}
@@ -870,20 +873,20 @@ func genCase(t *rapid.T, p profile) Case {
 	e := genEnv{cfg: cfg, nAcct: len(cfg.Accounts), nBrows: cfg.Browsers}
 	c := Case{Cfg: cfg, Ops: genOps(t, p, e)}
 	decorateFaults(t, p, c.Ops)
-	decorateJSON(t, cfg, c.Ops)
+	decorateJSON(t, p, cfg, c.Ops)
 	return c
 }
 
 // decorateJSON: in JSON mode a few requests carry a body that does not decode into
 // string members (a boolean "rm", a numeric code, a cut-off body ...), as real API clients send.
-func decorateJSON(t *rapid.T, cfg harness.Config, ops []Op) {
-	if !cfg.JSON {
+func decorateJSON(t *rapid.T, p profile, cfg harness.Config, ops []Op) {
+	if !cfg.JSON || p.jsonMangle <= 0 {
 		return
 	}
 	for i := range ops {
 		switch ops[i].K {
 		case "login", "otplogin", "register", "recstart", "recend", "totpvalidate", "smsvalidate", "totpconfirm", "smsconfirm", "totpremove", "smsremove", "evend":
-			if chance(t, "jsonmangle", 5) {
+			if chance(t, "jsonmangle", p.jsonMangle) {
 				ops[i].JM = pick(t, "jsonhow", "bool", "bool", "num", "null", "trunc", "trunc", "array", "nested")
 			}
 		}
